@@ -18,6 +18,7 @@ Terms are nested tuples (hashable, structurally compared):
 Events (namedtuples) form the effect tree mirroring the control structure.
 """
 import ast
+import re
 import copy
 import os
 from collections import namedtuple
@@ -217,6 +218,9 @@ class Program:
         for m in self.modules.values():
             for c in m.classes.values():
                 c.bases = [self.resolve_class(m, b) or self._base_name(m, b) for b in c.node.bases]
+        self.hazards = []               # constructs that are wrong wherever they occur, met in the analysed code
+        self._hazard_keys = set()
+        self._fn_hazards, self._class_hazards = self._static_hazards()
         self.class_hooks = {}           # class -> why its class-creation hook is not followed (methods are then undecided)
         self.registry_attrs = set()     # class-level containers filled by __init_subclass__ hooks
         self._synthesise_dataclass_inits()
@@ -248,6 +252,144 @@ class Program:
         self.next_of = {}           # iter(S) term -> element, while a loop walks S through an iterator object
         self.funcrefs = {}          # key -> (class, definition, decorator level): what a decorator receives
         self.wrappers = {}          # key -> closure a user decorator returned for a definition
+
+    _RANDOM_ROOTS = ("random.", "numpy.random.", "np.random.", "time.", "secrets.", "uuid.", "os.urandom")
+
+    def _static_hazards(self):
+        """Constructs whose meaning differs from what they look like, located once:
+        (1) a parameter default that calls a random generator / clock: evaluated once, when the function is defined;
+        (2) a class-level container (list / dict / set / array built in the class body) that instance methods change in
+            place through `self.<name>` while no instance ever gets a container of its own: shared by all instances."""
+        by_fn, by_class, by_module = {}, {}, {}
+        self._module_hazards = by_module
+        for m in self.modules.values():
+            for fn in ast.walk(m.tree):
+                if not isinstance(fn, (ast.FunctionDef, ast.AsyncFunctionDef)):
+                    continue
+                a = fn.args
+                pos = a.posonlyargs + a.args
+                pairs = list(zip(pos[len(pos) - len(a.defaults):], a.defaults)) + \
+                    [(x, d) for x, d in zip(a.kwonlyargs, a.kw_defaults) if d is not None]
+                for arg, d in pairs:
+                    for c in ast.walk(d):
+                        if isinstance(c, ast.Call) and isinstance(c.func, (ast.Name, ast.Attribute)):
+                            name = self.dotted_of(m, c.func) or ""
+                            if (name + ".").startswith(self._RANDOM_ROOTS) or name in ("random.random", "time.time"):
+                                by_fn.setdefault(id(fn), []).append((
+                                    "default-evaluated-once", f"{m.path}:{d.lineno}", fn.name, f"{arg.arg}={ast.unparse(d)}",
+                                    f"the default of parameter `{arg.arg}` of {fn.name} calls {name}(): defaults are evaluated "
+                                    f"once, when the function is defined, so every call that relies on the default sees the "
+                                    f"same value for the whole life of the process"))
+            # (4) a lambda / nested function made once per item of a comprehension (or loop) that reads the loop variable
+            #     and is kept: the variable is looked up when the function is called, i.e. after the loop -- every copy
+            #     sees the last item
+            for comp in ast.walk(m.tree):
+                if not isinstance(comp, (ast.ListComp, ast.DictComp, ast.SetComp)):
+                    continue
+                bound = {x.id for g in comp.generators for x in ast.walk(g.target) if isinstance(x, ast.Name)}
+                parts = [comp.key, comp.value] if isinstance(comp, ast.DictComp) else [comp.elt]
+                for part in parts:
+                    for lam in ast.walk(part):
+                        if not isinstance(lam, ast.Lambda):
+                            continue
+                        own = {a.arg for a in lam.args.posonlyargs + lam.args.args + lam.args.kwonlyargs}
+                        if lam.args.vararg:
+                            own.add(lam.args.vararg.arg)
+                        if lam.args.kwarg:
+                            own.add(lam.args.kwarg.arg)
+                        late = sorted({x.id for x in ast.walk(lam.body) if isinstance(x, ast.Name) and isinstance(x.ctx, ast.Load)
+                                       and x.id in bound and x.id not in own})
+                        # `(lambda f=f: ...)` binds at creation; a lambda that is called on the spot is harmless too
+                        called_now = any(isinstance(c, ast.Call) and c.func is lam for c in ast.walk(part))
+                        if late and not called_now:
+                            by_module.setdefault(m.name, []).append((
+                                "late-binding", f"{m.path}:{lam.lineno}", "<module>" , ast.unparse(lam)[:80],
+                                f"the lambda created for every item of the comprehension reads the comprehension variable "
+                                f"`{late[0]}` when it is *called*: by then the comprehension has finished and every copy sees "
+                                f"the last item (bind it with a default argument, `lambda ..., {late[0]}={late[0]}: ...`)"))
+            # (3) the truth value of an object whose class defines __len__ / __bool__ (a storage: empty means false)
+            #     taken where "was one given at all" is meant
+            for fn in ast.walk(m.tree):
+                if not isinstance(fn, (ast.FunctionDef, ast.AsyncFunctionDef)):
+                    continue
+                sized = {}
+                for a in fn.args.posonlyargs + fn.args.args + fn.args.kwonlyargs:
+                    if a.annotation is None:
+                        continue
+                    for ident in set(re.findall(r"[A-Za-z_][A-Za-z_0-9]*", ast.unparse(a.annotation))):
+                        r = self.resolve_name(m, ident)
+                        if r and r[0] == "class" and any(self.find_method(r[1], d)[1] is not None for d in ("__len__", "__bool__")):
+                            sized[a.arg] = r[1]
+                if not sized:
+                    continue
+                tested = []
+
+                def tests(e):
+                    if isinstance(e, ast.BoolOp):
+                        for v in e.values:
+                            tests(v)
+                    elif isinstance(e, ast.UnaryOp) and isinstance(e.op, ast.Not):
+                        tests(e.operand)
+                    else:
+                        tested.append(e)
+                for n in ast.walk(fn):
+                    if isinstance(n, (ast.If, ast.While, ast.IfExp, ast.Assert)):
+                        tests(n.test)
+                    elif isinstance(n, ast.BoolOp):
+                        for v in n.values[:-1]:
+                            tests(v)
+                    elif isinstance(n, ast.UnaryOp) and isinstance(n.op, ast.Not):
+                        tests(n.operand)
+                    elif isinstance(n, ast.Call) and isinstance(n.func, ast.Name) and n.func.id == "bool" and len(n.args) == 1:
+                        tests(n.args[0])
+                    elif isinstance(n, ast.comprehension):
+                        for c in n.ifs:
+                            tests(c)
+                rebound = {x.id for x in ast.walk(fn) if isinstance(x, ast.Name) and isinstance(x.ctx, ast.Store)}
+                for e in tested:
+                    if isinstance(e, ast.Name) and e.id in sized and e.id not in rebound:
+                        K = sized[e.id]
+                        by_fn.setdefault(id(fn), []).append((
+                            "truth-of-sized-object", f"{m.path}:{e.lineno}", fn.name, f"bool({e.id})",
+                            f"{fn.name} takes the truth value of `{e.id}` ({K.name} defines "
+                            f"{'__len__' if self.find_method(K, '__len__')[1] is not None else '__bool__'}): an object that "
+                            f"holds nothing yet counts as false, which is not the same as `{e.id} is None`"))
+            for K in m.classes.values():
+                for attr, node in K.class_attrs.items():
+                    mutable = isinstance(node, (ast.List, ast.Dict, ast.Set, ast.ListComp, ast.DictComp, ast.SetComp)) or \
+                        (isinstance(node, ast.Call) and isinstance(node.func, (ast.Name, ast.Attribute)) and
+                         (self.dotted_of(m, node.func) or ast.unparse(node.func)) in (
+                             "list", "dict", "set", "bytearray", "collections.deque", "collections.defaultdict",
+                             "collections.OrderedDict", "collections.Counter", "numpy.zeros", "numpy.ones", "numpy.empty",
+                             "numpy.full", "numpy.array", "numpy.asarray", "numpy.zeros_like", "numpy.arange"))
+                    if not mutable:
+                        continue
+                    rebinds, changes = False, []
+                    for fn in K.methods.values():
+                        me = fn.args.args[0].arg if fn.args.args else None
+                        for n in ast.walk(fn):
+                            if isinstance(n, ast.Attribute) and n.attr == attr and isinstance(n.ctx, ast.Store):
+                                rebinds = True
+                            if isinstance(n, ast.Subscript) and isinstance(n.ctx, (ast.Store, ast.Del)) and \
+                                    isinstance(n.value, ast.Attribute) and n.value.attr == attr and \
+                                    isinstance(n.value.value, ast.Name) and n.value.value.id == me:
+                                changes.append((fn, n))
+                            if isinstance(n, ast.Call) and isinstance(n.func, ast.Attribute) and n.func.attr in MUTATORS and \
+                                    isinstance(n.func.value, ast.Attribute) and n.func.value.attr == attr and \
+                                    isinstance(n.func.value.value, ast.Name) and n.func.value.value.id == me:
+                                changes.append((fn, n))
+                    if changes and not rebinds:
+                        fn, n = changes[0]
+                        by_class.setdefault(K.qual, []).append((
+                            "class-level-state", f"{m.path}:{n.lineno}", f"{K.name}.{fn.name}", f"{K.name}.{attr}",
+                            f"{K.name}.{attr} is created once in the class body and {fn.name} changes it in place through "
+                            f"self.{attr}; no instance ever gets its own: all instances of {K.name} share this state"))
+        return by_fn, by_class
+
+    def hazard(self, key, entry):
+        if key not in self._hazard_keys:
+            self._hazard_keys.add(key)
+            self.hazards.append(entry)
 
     @staticmethod
     def _dataclass_options(K):
@@ -1537,6 +1679,14 @@ class Summariser:
             for k in prog.mro(cls):
                 if k.qual in prog.class_hooks:
                     raise Unsupported(f"methods of {k.name} are rewritten when the class is created: {prog.class_hooks[k.qual]}")
+        for h in prog._fn_hazards.get(id(fn), ()):
+            prog.hazard((h[0], h[1]), h)
+        for h in prog._module_hazards.get(module.name, ()):
+            prog.hazard((h[0], h[1]), h)
+        if cls is not None and prog._class_hazards:
+            for k in prog.mro(cls):
+                for h in prog._class_hazards.get(k.qual, ()):
+                    prog.hazard((h[0], h[1]), h)
         self.env = {}
         self.fields = fields if fields is not None else {}
         self.facts = []
@@ -3597,6 +3747,31 @@ class Summariser:
         return norm_comp(("comp", kind, lid, it, key, val, conds))
 
     # -- calls -----------------------------------------------------------------------------------
+    def _entries_changed_in_place(self, call):
+        """Is the dict built by this `dict.fromkeys(...)` call bound to a name whose entries are later changed in place
+        (`d[k].append(v)`, `d[k] += [...]`, `d[k][i] = v`)?"""
+        name = None
+        for n in ast.walk(self.fn):
+            if isinstance(n, (ast.Assign, ast.AnnAssign)) and n.value is call:
+                t = n.targets[0] if isinstance(n, ast.Assign) else n.target
+                if isinstance(t, ast.Name):
+                    name = t.id
+        if name is None:
+            return True             # handed on directly: assume the worst
+        for n in ast.walk(self.fn):
+            entry = None
+            if isinstance(n, ast.Call) and isinstance(n.func, ast.Attribute) and n.func.attr in MUTATORS:
+                entry = n.func.value
+            elif isinstance(n, ast.AugAssign):
+                entry = n.target
+            elif isinstance(n, ast.Subscript) and isinstance(n.ctx, (ast.Store, ast.Del)):
+                entry = n.value
+            if isinstance(entry, ast.Subscript) and isinstance(entry.value, ast.Name) and entry.value.id == name:
+                return True
+            if isinstance(n, ast.Call) and any(isinstance(a, ast.Name) and a.id == name for a in n.args):
+                return True         # handed to other code
+        return False
+
     def _reduce_as_loop(self, e, events):
         """functools.reduce(f, it, init) is `acc = init; for x in it: acc = f(acc, x)`."""
         if not (isinstance(e.func, (ast.Name, ast.Attribute)) and len(e.args) == 3 and not e.keywords and
@@ -3911,6 +4086,11 @@ class Summariser:
         if isinstance(f, ast.Attribute) and f.attr == "fromkeys" and isinstance(f.value, ast.Name) and \
                 f.value.id == "dict" and "dict" not in self.env and 1 <= len(args) <= 2 and not kwargs:
             lid = self.ids.next()
+            if len(args) == 2 and args[1][0] == "new" and args[1][2] in ("list", "dict", "set") and self._entries_changed_in_place(e):
+                self.prog.hazard(("fromkeys", f"{self.module.path}:{e.lineno}"), (
+                    "shared-value", f"{self.module.path}:{e.lineno}", self.fn.name, ast.unparse(e)[:80],
+                    f"dict.fromkeys(keys, {ast.unparse(e.args[1])}) stores the one {args[1][2]} built for the call under every "
+                    f"key: what is added for one key shows up under all keys"))
             return ("comp", "dict", lid, args[0], ("elem", lid), args[1] if len(args) == 2 else ("const", None), ())
         # method of a local collaborator object of a private class
         if isinstance(f, ast.Attribute) and isinstance(f.value, ast.Name) and \
